@@ -1044,8 +1044,9 @@ func renderVariableString(text string, ctx *RenderContext, w io.Writer) error {
 		// Find the end of the variable
 		varEnd := strings.Index(text[varStart:], "}}")
 		if varEnd == -1 {
-			// Unclosed variable, write the rest as is
-			buffer.WriteString(text[start:])
+			// Unclosed variable, write the rest as is (the text in front of it
+			// has been written above)
+			buffer.WriteString(text[varStart-2:])
 			break
 		}
 
